@@ -1,5 +1,41 @@
 import Asn1Verif.Base.Text
-/- line protocol, stream `tok` — not implemented yet -/
+import Asn1Verif.Front.Tokenizer
+/-
+  line protocol, stream `tok` (front end, C13/C14): the tokenizer model
+
+  `tok lex <hex of UTF-8 text>`         -> `ok <n> <tok>;<tok>;…` (`-` for no token) | `panic`
+  `tok layout <hex of UTF-8 text> <…>`  -> the same; the further arguments (expected items and
+                                           locations) are only read by the oracle
+  token: `T:<line>:<column>:<hex of text>` | `S:<line>:<column>:<hex of char>`
+  Input that is not valid UTF-8 is not a request (`bad-op`).
+-/
 namespace Driver.TokStream
-def handle (_args : List String) : String := "bad-op"
+open Asn1Verif Asn1Verif.Front Asn1Verif.Text
+
+def utf8Hex (cs : List Char) : String :=
+  bytesToHex ((String.ofList cs).toUTF8.toList.map fun b => BitVec.ofNat 8 b.toNat)
+
+def tokStr : Token → String
+  | .text loc s => s!"T:{loc.line}:{loc.column}:{utf8Hex s}"
+  | .separator loc c => s!"S:{loc.line}:{loc.column}:{utf8Hex [c]}"
+
+def toksStr (ts : List Token) : String :=
+  toString ts.length ++ " " ++ (if ts.isEmpty then "-" else String.intercalate ";" (ts.map tokStr))
+
+def decodeText (hex : String) : Option (List Char) := do
+  let bs ← hexToBytes hex
+  let s ← String.fromUTF8? (ByteArray.mk (bs.map fun b => UInt8.ofNat b.toNat).toArray)
+  pure s.toList
+
+def lex (hex : String) : String :=
+  match decodeText hex with
+  | some cs => render toksStr (tokenize cs)
+  | none => "bad-op"
+
+def handle (args : List String) : String :=
+  match args with
+  | ["lex", hex] => lex hex
+  | ["layout", hex, _, _] => lex hex
+  | _ => "bad-op"
+
 end Driver.TokStream
